@@ -235,8 +235,54 @@ def build(tier):
     targets += util_targets() + store_targets()
     return {
         'targets': targets, 'vcs': [],
-        'decided': ['early-stopping monitor transition = specification, for every observation and prior state'],
-        'not_decided': ['statistics equal those recomputed from scratch by predicting (numeric equality through loss/predict)'],
-        'assumptions': ['gboost::mean_error is a deterministic function of (errors, samples) (assumed contract)'],
+        'decided': ['early-stopping monitor transition = specification, for every observation and prior state; constructor (round 0, value +max, given snapshot) and round() / value() / values() accessors',
+                    'gboost::result_t: constructor allocates a statistics row for every round 0..max_rounds, no learners; update(round, ..) stays inside m_statistics; done(round) keeps exactly `round` learners and round + 1 rows',
+                    '::fit round loop (src/gboost/model.cpp): #learners == round at the loop head; the monitor is consulted once before the first round and once per appended learner with the CURRENT learner list and the configured epsilon / patience, never after it has stopped; '
+                    'every update(round + 1, ..) writes the row of the learner count after the append, inside m_statistics; the early-exit learner (scaling failed) is appended without consulting the monitor and is never kept; '
+                    'result.done(optimum.round()) is called inside its precondition, so the returned fold model keeps exactly optimum.round() learners (before merging) and optimum.round() + 1 statistics rows; '
+                    'the returned per-sample values are the monitor snapshot (the values of the reported round) selected by the training resp. validation samples',
+                    '::selected(values, samples): row k of the result is row k of values gathered by samples, shape (2, #samples)',
+                    'gboost_model_t::fit fold averaging: bias = zero + bias of extra(optimum_trial, fold) for every fold exactly once, then times 1/folds once; m_wlearners = cleared + exactly one clone of every learner of every fold; '
+                    'after merging every learner scaled by 1/folds exactly once; the final statistics stored by fit_result.store are evaluated on predictions of the FINAL model and selected by the samples given to fit(), stored once',
+                    'gboost::mean_error / mean_loss: row 0 resp. 1, every listed sample exactly once in list order from 0.0, divided by max(#samples, 1)',
+                    'ml::result_t::store(values, extra) / stats(value): error row -> m_optims row 0, loss row -> row 1; errors read row 0, losses row 1'],
+        'not_decided': ['statistics equal those recomputed from scratch by predicting (numeric equality through loss/predict)',
+                        'the linear-model side of the statement (linear_t::fit, src/linear/util.cpp)',
+                        'history lemma (induction over the history from the transition contract) is not machine-checked; the native replay enumerates histories up to length 4 instead'],
+        'assumptions': ['gboost::mean_error is a deterministic function of (errors, samples) (assumed contract)',
+                        'gboost parameters inside their registered domains: 10 <= max_rounds <= 10^6, 1 <= patience <= 1000 (gboost_model_t constructor; C19)',
+                        'erased numerics of ::fit / gboost_model_t::fit (datasets, iterators, samplers, loss, solver, weak learners, outputs, gradients, clusters) do not touch the modelled objects; '
+                        'gboost::evaluate overwrites `values` only; solver_t::minimize returns an arbitrary state; learner_t::fit_dataset touches the learner_t base only',
+                        'wlearner::merge never increases the number of learners and keeps an empty list empty (C10); wlearner_t::clone copies the learner',
+                        'ml::tune returns a result with trials() >= 1, 0 <= optimum_trial() < trials() (C13) and 1 <= folds() <= 1000; extra(trial, fold) holds the gboost::result_t the callback returned for (trial, fold) (C13)',
+                        'std::for_each / std::accumulate apply the operation once to every element of [first, last) in order; tensor_t::indexed(indices, out) gathers out(i) = self(indices(i))',
+                        'every sample listed in the index lists handed to mean_error / mean_loss is a column of errors_losses (C12: splits of arange(0, samples))'],
         'trusted': [],
     }
+
+
+def replay(rp):
+    """early-stopping monitor: the counterexample of a refuted early_stopping_done obligation is one transition from an
+    arbitrary monitor state; natively the state is only reachable through a history, so the driver feeds ALL histories up
+    to length 4 over a 5-value alphabet (patience 1..4, with / without validation samples, plus random longer ones) to the
+    real early_stopping_t of the working tree and compares every answer, round(), value() and values() with a reference
+    monitor written from the property statement.  The first mismatching history is the concrete failing input."""
+    import os
+    import replaylib
+    from astload import REPO
+    out = {'reproduced': False, 'runs': []}
+    tgt = rp.get('target', '')
+    if 'early_stopping' not in tgt:
+        out['note'] = f'no native replay for target {tgt}: protocol-level counterexample (ghost identities / counters)'
+        return out
+    srcs = [os.path.join(REPO, 'src/gboost/early_stopping.cpp'), os.path.join(REPO, 'src/gboost/util.cpp')]
+    # only mean_error of util.cpp is needed: unreferenced functions (evaluate, tune_shrinkage and their dependencies) are discarded
+    exe = replaylib.build_header_only('replay/C11_replay.cpp', 'C11_replay', extra=srcs + ['-ffunction-sections', '-fdata-sections', '-Wl,--gc-sections'])
+    rc, so, se = replaylib.run_driver(exe, ['exhaustive', 4], timeout=600)
+    lines = so.strip().split('\n')
+    out['runs'].append({'mode': 'exhaustive', 'exit': rc, 'output': lines[:3] + lines[-1:]})
+    # exit 1: the real monitor disagrees with the property's reference monitor on a concrete history; negative: the real code crashed
+    out['reproduced'] = rc == 1 or rc < 0
+    if rc == 1 and lines:
+        out['failing_input'] = lines[0]
+    return out
